@@ -279,6 +279,47 @@ def report(prop, results, ledger, tier, seed, t_start):
             bounded.append({'what': name, 'why_not_proved': why[:300], 'error': str(e)[:300]})
         lines.append(f'UNDECIDED contract={name} reason=unsupported: {why.splitlines()[0][:200]}')
         undecided.append({'contract': name, 'reason': why[:300]})
+    # 3. native cross-check of every contract of this property on random concrete inputs
+    xc = {'contracts': 0, 'inputs': 0, 'failures': 0, 'disagreements': []}
+    n_native = {'quick': 40, 'thorough': 1500}.get(tier, 40)
+    reported = {l.split('replay=')[1].split()[0] for l in lines if 'replay=' in l}
+    bymod = {}
+    for r in results:
+        if r['name'] not in unsupported:
+            bymod.setdefault(r['module'], []).append(r)
+    for mod, rs in sorted(bymod.items()):
+        try:
+            cc = native(['crosscheck', mod, str(n_native), str(seed)] + [r['name'] for r in rs], timeout=3600)
+        except Exception as e:
+            xc['error'] = str(e)[-500:]
+            checker_error_native = str(e)[-300:]
+            continue
+        for r in rs:
+            st = cc.get(r['name'])
+            if st is None:
+                continue
+            xc['contracts'] += 1
+            xc['inputs'] += st.get('pre_ok', 0)
+            for f in st.get('failures', [])[:1]:
+                clause = f['clauses'][0][0]
+                oid = f"{r['name']}/{clause}"
+                rp_path = os.path.join(VERIF, 'replays', f"{prop}-{oid.replace('/', '-')}.json")
+                xc['failures'] += 1
+                if rp_path in reported:
+                    continue
+                sym = next((o for o in obligations if o['id'] == oid), None)
+                if sym is not None and sym['status'] == 'discharged':
+                    xc['disagreements'].append(oid)
+                rp = {'property': prop, 'obligation': oid, 'module': mod, 'contract': r['name'], 'clause': clause,
+                      'target': r['target'], 'verdict': 'native-crosscheck', 'inputs': f['inputs'],
+                      'solver_output': 'found by the native cross-check (real code, executable contract)'}
+                json.dump(rp, open(rp_path, 'w'), indent=1)
+                kf = match_known(findings, prop, oid, rp)
+                if kf is not None:
+                    lines.append(f"KNOWN-FINDING: property={prop} {oid}: {kf.get('text', '')}")
+                else:
+                    lines.append(f'VIOLATION property={prop} replay={rp_path}')
+                    violations += 1
     n_ob = len(obligations)
     n_dis = sum(1 for o in obligations if o['status'] == 'discharged')
     checker_error = None
@@ -306,6 +347,7 @@ def report(prop, results, ledger, tier, seed, t_start):
                           for r in results},
             'cover_checks': sum((c or {}).get('feasible_post', 0) for c in covers.values()),
             'bounded_standins': bounded,
+            'crosscheck': xc,
             'undecided': undecided,
             'samples': [{'id': o['id'], 'status': o['status'], 'paths': o['paths'], 'time_s': o['time_s']}
                         for o in obligations[:8]],
